@@ -54,6 +54,14 @@ func getRawUrlPath(u *url.URL) string {
 func (v *AllScopeVariables) Get(s context.Scope, name string) (value.Value, error) {
 	req := v.ctx.Request
 
+	// geoip.* variables are the deprecated names of client.geo.*
+	if rest, ok := strings.CutPrefix(name, "geoip."); ok && name != GEOIP_USE_X_FORWARDED_FOR {
+		if v := lookupOverride(v.ctx, name); v != nil {
+			return v, nil
+		}
+		return v.Get(s, "client.geo."+rest)
+	}
+
 	switch name {
 	case BEREQ_IS_CLUSTERING:
 		if v := lookupOverride(v.ctx, name); v != nil {
@@ -947,7 +955,7 @@ func (v *AllScopeVariables) Set(s context.Scope, name, operator string, val valu
 			return errors.WithStack(err)
 		}
 		return nil
-	case CLIENT_GEO_IP_OVERRIDE:
+	case CLIENT_GEO_IP_OVERRIDE, GEOIP_IP_OVERRIDE:
 		if err := doAssign(v.ctx.ClientGeoIpOverride, operator, val); err != nil {
 			return errors.WithStack(err)
 		}
